@@ -34,6 +34,14 @@ enum T {
     Interval { period: Duration, ticks: u32 },
     /// a pipe round trip in the middle, so timer expiry interleaves with I/O completions
     IoThenSleep(Duration),
+    /// the thread is kept busy (no await) for `d` once `after` has passed: deadlines expire while
+    /// the loop is not planning its next wait
+    Busy { after: Duration, d: Duration },
+    /// timeout around a pipe read whose data arrives at `data_at`
+    TimeoutIo { outer: Duration, data_at: Duration },
+    /// sleep until one of a few instants shared by all tasks of the run (exactly equal deadlines),
+    /// created after `after`; if `hold` is set the sleep is polled once, kept that long and dropped
+    Shared { slot: u32, after: Duration, hold: Option<Duration> },
 }
 
 fn dur() -> Duration {
@@ -53,13 +61,20 @@ fn dur() -> Duration {
 fn gen_prog() -> Vec<T> {
     let n = 1 + sim::range("timers", 0, 5) as usize;
     (0..n)
-        .map(|_| match sim::choose("timer.kind", 6) {
+        .map(|_| match sim::choose("timer.kind", 10) {
             0 => T::Sleep(dur()),
             1 => T::SleepUntilPast(dur()),
             2 => T::Timeout { outer: dur(), inner: dur() },
             3 => T::DroppedSleep { d: dur(), hold: dur() },
             4 => T::Interval { period: dur().max(Duration::from_nanos(1)), ticks: 1 + sim::range("ticks", 0, 3) as u32 },
-            _ => T::IoThenSleep(dur()),
+            5 => T::IoThenSleep(dur()),
+            6 => T::Busy { after: dur(), d: dur() },
+            7 => T::TimeoutIo { outer: dur(), data_at: dur() },
+            _ => T::Shared {
+                slot: sim::range("shared.slot", 0, 1) as u32,
+                after: [Duration::ZERO, Duration::from_micros(3), Duration::from_micros(400)][sim::choose("shared.after", 3)],
+                hold: if sim::flip("shared.dropped", 1, 2) { Some([Duration::ZERO, Duration::from_micros(5), Duration::from_micros(700)][sim::choose("shared.hold", 3)]) } else { None },
+            },
         })
         .collect()
 }
@@ -75,6 +90,7 @@ fn timers() -> RunResult {
     sim::log(|| format!("{prog:?}"));
     let errs = Errs::default();
     let leftover: Rc<RefCell<Option<Option<Duration>>>> = Rc::default();
+    BUSY.with(|b| b.borrow_mut().clear());
     let end = run_on_kernel(cfg, {
         let (errs, prog, leftover) = (errs.clone(), prog.clone(), leftover.clone());
         move || {
@@ -82,6 +98,7 @@ fn timers() -> RunResult {
             pb.capacity(8);
             let rt = compio_runtime::Runtime::builder().with_proactor(pb).build().expect("runtime");
             rt.block_on(async {
+                let base = Instant::now();
                 let mut tasks = Vec::new();
                 for (i, t) in prog.iter().cloned().enumerate() {
                     let errs = errs.clone();
@@ -97,7 +114,7 @@ fn timers() -> RunResult {
                                 let deadline = start.checked_sub(d).unwrap_or(start);
                                 sleep_until(deadline).await;
                                 let now = Instant::now();
-                                if now.duration_since(start) > SLACK {
+                                if now.duration_since(start) > SLACK + busy_after(start, now) {
                                     errs.push("late", format!("timer {i}: sleep_until(a past instant) took {:?}", now.duration_since(start)));
                                 }
                             }
@@ -107,7 +124,7 @@ fn timers() -> RunResult {
                                 let now = Instant::now();
                                 match r {
                                     Ok(()) => {
-                                        if inner > outer + SLACK {
+                                        if inner > outer + SLACK && !busy_spans(start + outer + SLACK, start + inner) {
                                             errs.push("timeout-side", format!("timer {i}: timeout({outer:?}) around sleep({inner:?}) returned the inner result"));
                                         }
                                         judge(&errs, i, "timeout(inner)", start + inner, now);
@@ -130,16 +147,84 @@ fn timers() -> RunResult {
                                 let start = Instant::now();
                                 let mut iv = interval(period);
                                 for k in 0..ticks {
+                                    let called = Instant::now();
                                     let at = iv.tick().await;
                                     let now = Instant::now();
-                                    // first tick is immediate, then start + k * period
+                                    sim::log(|| format!("timer {i}: tick {k} called at +{:?}, reports +{:?}, observed at +{:?}", called.duration_since(start), at.saturating_duration_since(start), now.duration_since(start)));
+                                    // first tick is immediate, then on start + m * period with m >= k (ticks the
+                                    // thread was too late for are skipped, never shifted)
                                     let want = start + period * k;
-                                    if at < want.checked_sub(SLACK).unwrap_or(want) || now < want.checked_sub(SLACK).unwrap_or(want) {
-                                        errs.push("early", format!("timer {i}: interval tick {k} at {:?} after start, scheduled for {:?}", now.duration_since(start), period * k));
+                                    if at < want.checked_sub(SLACK).unwrap_or(want) || now < at {
+                                        errs.push("early", format!("timer {i}: interval tick {k} at {:?} after start (reported {:?}), scheduled for {:?}", now.duration_since(start), at.saturating_duration_since(start), period * k));
                                     }
-                                    let off = at.duration_since(start).as_nanos() as i128 - (period.as_nanos() as i128) * k as i128;
-                                    if off.unsigned_abs() > SLACK.as_nanos() {
-                                        errs.push("interval-drift", format!("timer {i}: interval tick {k} reported {off} ns away from start + {k} * period"));
+                                    // the tick after a call at `called` is the next multiple of the period after it
+                                    if k > 0 {
+                                        let m = called.duration_since(start).as_nanos() / period.as_nanos() + 1;
+                                        let expected = period.as_nanos() * m;
+                                        let since = at.saturating_duration_since(start).as_nanos();
+                                        if since.abs_diff(expected) > SLACK.as_nanos() {
+                                            errs.push("interval-drift", format!("timer {i}: interval tick {k} requested {:?} after start reported {since} ns after start, the next multiple of {period:?} is at {expected} ns", called.duration_since(start)));
+                                        }
+                                    }
+                                    if now.saturating_duration_since(at) > SLACK + busy_after(at, now) {
+                                        errs.push("late", format!("timer {i}: interval tick {k} observed {:?} after its instant", now.saturating_duration_since(at)));
+                                    }
+                                }
+                            }
+                            T::Shared { slot, after, hold } => {
+                                sleep(after).await;
+                                let deadline = base + Duration::from_micros(500) * (slot + 1);
+                                match hold {
+                                    None => {
+                                        let created = Instant::now();
+                                        sleep_until(deadline).await;
+                                        judge(&errs, i, "sleep_until(shared instant)", deadline.max(created), Instant::now());
+                                    }
+                                    Some(h) => {
+                                        let mut s = std::pin::pin!(sleep_until(deadline));
+                                        let _ = futures_util::poll!(s.as_mut());
+                                        sleep(h).await;
+                                    }
+                                }
+                            }
+                            T::Busy { after, d } => {
+                                sleep(after).await;
+                                let s = Instant::now();
+                                BUSY.with(|b| b.borrow_mut().push((s, d)));
+                                sim::log(|| format!("timer {i}: busy for {d:?} from t={:?}", Duration::from_nanos(simkernel::now_ns())));
+                                simkernel::advance(d.as_nanos() as u64);
+                                sim::probe("busy-period");
+                            }
+                            T::TimeoutIo { outer, data_at } => {
+                                use compio_io::AsyncRead;
+                                if let Ok((mut rx, tx)) = compio_fs::pipe::anonymous().await {
+                                    let start = Instant::now();
+                                    simkernel::at(data_at, format!("writer of timer {i}'s pipe writes"), move || {
+                                        use std::os::fd::AsRawFd;
+                                        unsafe { libc::write(tx.as_raw_fd(), b"x".as_ptr() as *const libc::c_void, 1) };
+                                        drop(tx);
+                                    });
+                                    sim::log(|| format!("timer {i}: timeout around read starts at t={:?}", Duration::from_nanos(simkernel::now_ns())));
+                                    let r = timeout(outer, rx.read(Vec::with_capacity(4))).await;
+                                    let now = Instant::now();
+                                    sim::log(|| format!("timer {i}: timeout around read ends at t={:?}", Duration::from_nanos(simkernel::now_ns())));
+                                    match r {
+                                        Ok(compio_buf::BufResult(res, buf)) => {
+                                            if !matches!(res, Ok(1)) || buf != b"x" {
+                                                errs.push("timeout-side", format!("timer {i}: timeout({outer:?}) around a read returned {res:?} {buf:?}, the writer wrote one byte at {data_at:?}"));
+                                            }
+                                            if data_at > outer + SLACK && !busy_spans(start + outer + SLACK, start + data_at) {
+                                                errs.push("timeout-side", format!("timer {i}: timeout({outer:?}) around a read whose data came at {data_at:?} returned the inner result"));
+                                            }
+                                            judge(&errs, i, "timeout(read)", start + data_at, now);
+                                        }
+                                        Err(_) => {
+                                            // not if the thread was busy from around the write until past the deadline: the read had no chance to complete
+                                            if outer > data_at + SLACK && !busy_spans(start + data_at + SLACK, start + outer) {
+                                                errs.push("timeout-side", format!("timer {i}: timeout({outer:?}) around a read whose data came at {data_at:?} reported Elapsed"));
+                                            }
+                                            judge(&errs, i, "timeout(read elapsed)", start + outer, now);
+                                        }
                                     }
                                 }
                             }
@@ -174,10 +259,35 @@ fn timers() -> RunResult {
     Ok(())
 }
 
+thread_local! {
+    /// busy periods of this run: (start, length)
+    static BUSY: RefCell<Vec<(Instant, Duration)>> = const { RefCell::new(Vec::new()) };
+}
+
+/// Whether one busy period began by `from` and lasted until `to` (less the slack): both instants passed while no task could be polled.
+fn busy_spans(from: Instant, to: Instant) -> bool {
+    // back-to-back periods (no loop turn with a chance to complete anything in between) count as one
+    let mut v: Vec<(Instant, Instant)> = BUSY.with(|b| b.borrow().iter().map(|(s, d)| (*s, *s + *d)).collect());
+    v.sort();
+    let mut merged: Vec<(Instant, Instant)> = Vec::new();
+    for (s, e) in v {
+        match merged.last_mut() {
+            Some(last) if s <= last.1 + SLACK => last.1 = last.1.max(e),
+            _ => merged.push((s, e)),
+        }
+    }
+    merged.iter().any(|(s, e)| *s <= from && *e + SLACK >= to)
+}
+
+/// Busy time that delayed the observation of `deadline` (periods that ended after it, started by `now`).
+fn busy_after(deadline: Instant, now: Instant) -> Duration {
+    BUSY.with(|b| b.borrow().iter().filter(|(s, d)| *s + *d > deadline && *s <= now).map(|(_, d)| *d + SLACK).sum())
+}
+
 fn judge(errs: &Errs, i: usize, what: &str, deadline: Instant, now: Instant) {
     if now < deadline {
         errs.push("early", format!("timer {i}: {what} completed {:?} before its deadline", deadline.duration_since(now)));
-    } else if now.duration_since(deadline) > SLACK {
+    } else if now.duration_since(deadline) > SLACK + busy_after(deadline, now) {
         errs.push("late", format!("timer {i}: {what} completed {:?} after its deadline (slack {SLACK:?})", now.duration_since(deadline)));
     }
 }
